@@ -24,6 +24,14 @@ type Mutant struct {
 	ExpectConstruct string `json:"expect_construct,omitempty"` // substring of the construct that must be named
 	Canary          bool   `json:"canary,omitempty"`           // run in the quick tier too
 	Expect          string `json:"expect,omitempty"`           // "hit" (default) | "silent" (behaviour-preserving edit)
+	More            []Edit `json:"more,omitempty"`             // further edits of the same mutant (possibly other files)
+}
+
+// Edit is one additional replacement of a multi-site mutant.
+type Edit struct {
+	File string `json:"file"`
+	Old  string `json:"old"`
+	New  string `json:"new"`
 }
 
 // OverlayFor builds the overlay map for a mutant given as JSON.
@@ -32,16 +40,27 @@ func OverlayFor(repo, mutantJSON string) (map[string][]byte, error) {
 	if err := json.Unmarshal([]byte(mutantJSON), &m); err != nil {
 		return nil, err
 	}
-	path := filepath.Join(repo, m.File)
-	b, err := os.ReadFile(path)
-	if err != nil {
-		return nil, err
+	out := map[string][]byte{}
+	edits := append([]Edit{{m.File, m.Old, m.New}}, m.More...)
+	for _, e := range edits {
+		if e.File == "" {
+			e.File = m.File
+		}
+		path := filepath.Join(repo, e.File)
+		b, ok := out[path]
+		if !ok {
+			var err error
+			if b, err = os.ReadFile(path); err != nil {
+				return nil, err
+			}
+		}
+		s := string(b)
+		if n := strings.Count(s, e.Old); n != 1 {
+			return nil, fmt.Errorf("old text occurs %d times in %s (need exactly 1)", n, e.File)
+		}
+		out[path] = []byte(strings.Replace(s, e.Old, e.New, 1))
 	}
-	s := string(b)
-	if n := strings.Count(s, m.Old); n != 1 {
-		return nil, fmt.Errorf("old text occurs %d times in %s (need exactly 1)", n, m.File)
-	}
-	return map[string][]byte{path: []byte(strings.Replace(s, m.Old, m.New, 1))}, nil
+	return out, nil
 }
 
 // SelfTestRun is a set of mutant sub-processes in flight.
